@@ -1047,7 +1047,16 @@ MANIFEST = dict(
          "composition and direction, sum m_k d(LGAMMA_k) = d(2 OSMOT) on dual numbers over Q, under explicit hypotheses (2I = sum m z^2, "
          "electroneutrality with MacInnes, sqrt I ^2 = I, derivative rules of sqrt/ln, d g = GP/I dI, exp = G + GP, d Etheta = Etheta' dI); "
          "virial_gibbs_duhem for the constant-coefficient part without those hypotheses; G + GP = exp(-x) for the coded G, GP; "
-         "a_w = exp(-sum m phi / 55.50837) and cosmot = 1 + 2 OSMOT / OSUM; *_as_modelled: the operator trees of the quantities stored by "
+         "a_w = exp(-sum m phi / 55.50837) and cosmot = 1 + 2 OSMOT / OSUM; generated = model (namespace C16Gen, 'rfl' / kernel "
+         "defeq unless noted): lg*_src, lgOf_src (every aqueous gflag branch of gammas()), llnl_blend_src, g_src_eq, gp_src_eq, "
+         "calc_param_src_eq, calc_sit_param_src_eq, pz_{b0,b1,b2,c0,theta,lambda,etheta,psi_zeta_eta,mu}_src (per parameter type the "
+         "additions to LGAMMA / OSMOT / CSUM / F), pz_f_init0_src, pz_f_init12_src (pressure branch), pz_osmot_init_src, "
+         "pz_cosmot_aw_src, sit_eps_src, sit_scalars_src, etheta_src_eq, ethetap_src_eq, jay_src_eq, jprime_src_eq (the unrolled "
+         "Chebyshev / Clenshaw evaluation of ETHETA_PARAMS with both coefficient tables); derived from them: csRun_deriv, "
+         "jprime_is_x_times_djay, jay_eps (JPRIME = X dJAY/dX for the series as coded, DK[20] = 0), etheta_derivative (ethetap is "
+         "d etheta / dI: IRel's hypothesis derived from the code), g_derivative (d g = GP dI / I and exp = G + GP to first order); "
+         "*_as_modelled (listed normal forms, what is left of them: the loop assemblies of pitzer(), sit(), the LLNL search loop, "
+         "pitzer_tidy, read_species): the operator trees of the quantities stored by "
          "pitzer(), G, GP, ETHETAS, calc_pitz_param, pitzer_tidy, sit(), calc_sit_param, gammas(), read_species in the current source "
          "(locals / hoisted sub-expressions / named constants / one-line static helpers inlined, branches as guards, loops as folds, "
          "statement order irrelevant) are the ones the models transcribe (regenerated every run, proved by rfl). Obligation over generated data: reported LG = Float model at reported MU, "
